@@ -266,9 +266,59 @@ async def run_broken_validator(backend, counters):
     return viols, nontrivial
 
 
+async def run_same_named(backend, counters):
+    """two configured validators with the same function NAME (a stock one and a site's own, in either order): each of
+    them is evaluated for every event and each of them can refuse"""
+    from .. import sitevals
+
+    viols, nontrivial = [], []
+    k1 = ref.key_from_seed("c16-a")
+    for chain in (["nostr_relay.validators.is_signed", "nostr_relay.validators.is_not_too_large", "vf.sitevals.is_not_too_large"],
+                  ["vf.sitevals.is_not_too_large", "nostr_relay.validators.is_not_too_large", "nostr_relay.validators.is_signed"],
+                  ["nostr_relay.validators.is_recent", "vf.sitevals.is_recent", "nostr_relay.validators.is_signed"]):
+        rig = R.Rig(backend=backend, config={"analysis_delay": 0, "max_event_size": 100, "oldest_event": 1000}, storage_options={"validators": chain})
+        rig.load_config()
+        from nostr_relay import validators
+
+        hist.Clock(NOW).install(validators)
+        await rig.start()
+        try:
+            watcher = rig.connect("w")
+            await watcher.cmd(["REQ", "w", {"since": 1}])
+            conn = rig.connect("s")
+            cases = [("fine", ref.make_event(k1, kind=1, created_at=NOW, content="fine"), False),
+                     ("stock-refuses/too-large", ref.make_event(k1, kind=1, created_at=NOW, content="x" * 150), "is_not_too_large" in chain[1] + chain[0]),
+                     ("site-refuses/content", ref.make_event(k1, kind=1, created_at=NOW, content="SITE-REFUSES"), any("sitevals.is_not_too_large" in c for c in chain)),
+                     ("stock-refuses/too-old", ref.make_event(k1, kind=1, created_at=NOW - 5000, content="old"), any(c.endswith("validators.is_recent") for c in chain)),
+                     ("site-refuses/kind-7", ref.make_event(k1, kind=7, created_at=NOW, content="+"), any("sitevals.is_recent" in c for c in chain))]
+            for lab, raw, must_refuse in cases:
+                n0 = rig.rec.n
+                del sitevals.CALLS[:]
+                await conn.cmd(["EVENT", raw])
+                await rig.quiesce()
+                oks = R.ok_frames(conn, n0)
+                ok = oks[-1][1][2] if oks else None
+                stored = raw["id"] in dump.dump(rig)["events"]
+                pc = counters.setdefault("pipeline", {})
+                pc["same_named_events"] = pc.get("same_named_events", 0) + 1
+                nontrivial.append(h(["same-named", backend, tuple(chain), lab]))
+                rp = {"mode": "pipelines", "backend": backend, "chain": chain, "label": lab}
+                if must_refuse and (ok is True or stored):
+                    viols.append({"key": "pipeline/same-named-validators/admitted-despite/%s" % lab.split("/")[0],
+                                  "msg": "[%s] chain %s (two validators share a function name): %s event ok=%s stored=%s" % (backend, chain, lab, ok, stored), "replay": rp})
+                if not must_refuse and ok is not True:
+                    viols.append({"key": "pipeline/same-named-validators/compliant-event-refused", "msg": "[%s] chain %s: a compliant event was refused (%r)" % (backend, chain, oks[-1][1] if oks else None), "replay": rp})
+        finally:
+            await rig.close()
+    return viols, nontrivial
+
+
 async def run_pipelines(backend, n, counters, seed):
     r = random.Random(seed)
     viols, nontrivial = await run_broken_validator(backend, counters)
+    v2, nt2 = await run_same_named(backend, counters)
+    viols.extend(v2)
+    nontrivial.extend(nt2)
     pc = counters.setdefault("pipeline", {})
     k1, k2, svc = ref.key_from_seed("c16-a"), ref.key_from_seed("c16-b"), ref.key_from_seed("service")
     pipes = [list(p) for p in itertools.permutations(PIPE_VALIDATORS, 2)]
